@@ -1,12 +1,185 @@
-/-! Model for property C01 (core-only: no Mathlib import, so the driver links). -/
+import OnetVerif.Model.Util
+/-! Model for property C01: the receiving side of one server for one tree id — arrival of
+protocol messages, parking while the tree is unknown, the tree request, the tree store entry
+and the flushes of the parked messages.  One thread step per region between two hook points of
+`overlay.go` (the hooks are placed exactly at these boundaries, outside every lock):
+
+* `lookup`  — `TransmitMsg`: `treeStorage.getAndRefresh` (overlay.go:140); present ⇒ the
+              `transmitMux` region: look the instance up by the token id of the message, create it
+              if absent, hand the message over (`pi.ProcessProtocolMsg`) — collapsed to `deliver`
+* `park`    — `requestTree`: `savePendingMsg` (under `pendingMsgLock`)
+* `recheck` — the re-check added by the repair: `treeStorage.Get` present ⇒ `checkPendingMessages`
+* `chk`     — `treeStorage.IsRegistered`: registered (requested or present) ⇒ nothing more to do
+* `reg`     — `treeStorage.Register` (keeps a tree that is present)
+* `send`    — the `RequestTree` message leaves
+* `respond` — a `ResponseTree` arrives (`handleSendTree`): stored only while requested-and-missing,
+              then `RegisterTree` = `Set` + `checkPendingMessages`
+* `localSet`— a local `RegisterTree`
+* `flush`   — the goroutine of `checkPendingMessages`: takes every parked message of the tree under
+              the lock and re-enters `TransmitMsg` for each (over-approximated by independent
+              arrival threads — more schedules than reality, sound for universal statements)
+
+The network between servers is the assumption "every envelope sent to this server is handed to its
+dispatcher exactly once, unchanged" (C03 + no failure, which C01 presupposes).  Removal of the
+tree after the grace period and finished instances belong to C11.  Core-only. -/
 namespace C01
 
+inductive TS where | absent | requested | present deriving DecidableEq, Repr
+inductive Pc where | lookup | park | recheck | chk | reg | send | done deriving DecidableEq, Repr
+
+structure Th where
+  m : Nat
+  pc : Pc
+  deriving DecidableEq, Repr
+
+structure St where
+  tree : TS := .absent
+  parked : List Nat := []
+  delivered : List Nat := []    -- handed to the instance addressed by the message's token
+  arrived : List Nat := []      -- ghost: every envelope handed to the dispatcher
+  thr : List Th := []
+  flushes : Nat := 0            -- flush goroutines spawned and not yet run
+  reqs : Nat := 0               -- tree requests sent and not yet answered
+  deriving Repr
+
+inductive Act where
+  | arrive (m : Nat)
+  | thread (i : Nat)
+  | respond
+  | localSet
+  | flush
+  deriving Repr
+
+def stepTh (s : St) (i : Nat) (t : Th) : St :=
+  match t.pc with
+  | .lookup =>
+      if s.tree = .present then
+        { s with delivered := s.delivered ++ [t.m], thr := s.thr.set i { t with pc := .done } }
+      else { s with thr := s.thr.set i { t with pc := .park } }
+  | .park => { s with parked := s.parked ++ [t.m], thr := s.thr.set i { t with pc := .recheck } }
+  | .recheck =>
+      if s.tree = .present then
+        { s with flushes := s.flushes + 1, thr := s.thr.set i { t with pc := .done } }
+      else { s with thr := s.thr.set i { t with pc := .chk } }
+  | .chk =>
+      if s.tree = .absent then { s with thr := s.thr.set i { t with pc := .reg } }
+      else { s with thr := s.thr.set i { t with pc := .done } }
+  | .reg =>
+      { s with tree := (if s.tree = .absent then .requested else s.tree),
+               thr := s.thr.set i { t with pc := .send } }
+  | .send => { s with reqs := s.reqs + 1, thr := s.thr.set i { t with pc := .done } }
+  | .done => s
+
+def step (s : St) : Act → Option St
+  | .arrive m => some { s with arrived := s.arrived ++ [m], thr := s.thr ++ [⟨m, .lookup⟩] }
+  | .thread i =>
+      match s.thr[i]? with
+      | some t => if t.pc = .done then none else some (stepTh s i t)
+      | none => none
+  | .respond =>
+      if s.reqs = 0 then none
+      else if s.tree = .requested then
+        some { s with reqs := s.reqs - 1, tree := .present, flushes := s.flushes + 1 }
+      else some { s with reqs := s.reqs - 1 }
+  | .localSet => some { s with tree := .present, flushes := s.flushes + 1 }
+  | .flush =>
+      if s.flushes = 0 then none
+      else some { s with flushes := s.flushes - 1, parked := [],
+                         thr := s.thr ++ s.parked.map (fun m => ⟨m, .lookup⟩) }
+
+/-- a schedule: disabled actions are skipped -/
+def run (s : St) : List Act → St
+  | [] => s
+  | a :: as => match step s a with
+      | some s' => run s' as
+      | none => run s as
+
+/-- the variant of the unrepaired code (pinned commit): no re-check after parking — the thread
+goes from `park` straight to `chk`.  Used only for the negation witness. -/
+def stepThOld (s : St) (i : Nat) (t : Th) : St :=
+  match t.pc with
+  | .park => { s with parked := s.parked ++ [t.m], thr := s.thr.set i { t with pc := .chk } }
+  | _ => stepTh s i t
+
 namespace Drv
-/-- line-protocol driver state for C01 -/
-abbrev State := Unit
-def init : State := ()
-/-- one line in (tokens after the property prefix), new state and one line out -/
-def step (s : State) (_toks : List String) : State × String := (s, "bad-op")
+
+structure State where
+  trees : List (Nat × St) := []
+
+def init : State := {}
+def get (s : State) (t : Nat) : St := (s.trees.lookup t).getD {}
+def set (s : State) (t : Nat) (x : St) : State := { trees := (t, x) :: s.trees.filter (fun p => p.1 != t) }
+
+def showPc : Pc → String
+  | .lookup => "lookup" | .park => "park" | .recheck => "recheck" | .chk => "chk"
+  | .reg => "reg" | .send => "send" | .done => "done"
+
+def showTs : TS → String
+  | .absent => "absent" | .requested => "requested" | .present => "present"
+
+def obs (x : St) : String :=
+  s!"tree={showTs x.tree} parked={x.parked.length} delivered={Util.showNatList x.delivered}"
+
+/-- run every thread that sits at `lookup` once (the flush goroutine re-enters `TransmitMsg` for
+each drained message right away) -/
+def drain (x : St) : St :=
+  (List.range x.thr.length).foldl (fun acc i =>
+    match acc.thr[i]? with
+    | some t => if t.pc = .lookup then stepTh acc i t else acc
+    | none => acc) x
+
+/-- ops: `arrive <tree> <m>` (the thread runs to its first hook point), `thread <tree> <m>` (the
+thread carrying message m advances to its next hook point), `respond <tree>`, `localset <tree>`,
+`flush <tree>`.  Disabled ops answer `disabled`. -/
+def step (s : State) (toks : List String) : State × String :=
+  match toks with
+  | ["arrive", t, m] =>
+    match t.toNat?, m.toNat? with
+    | some t, some m =>
+      let x := get s t
+      match C01.step x (.arrive m) with
+      | some x1 =>
+        let i := x1.thr.length - 1
+        let x2 := (C01.step x1 (.thread i)).getD x1
+        (set s t x2, s!"pc={(x2.thr[i]?.map (fun th => showPc th.pc)).getD "?"} {obs x2}")
+      | none => (s, "disabled")
+    | _, _ => (s, "bad-op")
+  | ["thread", t, m] =>
+    match t.toNat?, m.toNat? with
+    | some t, some m =>
+      let x := get s t
+      -- the live (not finished) thread carrying m; a message has at most one
+      match (List.range x.thr.length).find? (fun i => match x.thr[i]? with
+              | some th => th.m == m && th.pc != .done | none => false) with
+      | some i =>
+        match C01.step x (.thread i) with
+        | some x1 => (set s t x1, s!"pc={(x1.thr[i]?.map (fun th => showPc th.pc)).getD "?"} {obs x1}")
+        | none => (s, "disabled")
+      | none => (s, "disabled")
+    | _, _ => (s, "bad-op")
+  | ["respond", t] =>
+    match t.toNat? with
+    | some t =>
+      match C01.step (get s t) .respond with
+      | some x => (set s t x, obs x)
+      | none => (s, "disabled")
+    | none => (s, "bad-op")
+  | ["localset", t] =>
+    match t.toNat? with
+    | some t =>
+      match C01.step (get s t) .localSet with
+      | some x => (set s t x, obs x)
+      | none => (s, "disabled")
+    | none => (s, "bad-op")
+  | ["flush", t] =>
+    match t.toNat? with
+    | some t =>
+      match C01.step (get s t) .flush with
+      | some x => let x := drain x; (set s t x, obs x)
+      | none => (s, "disabled")
+    | none => (s, "bad-op")
+  | _ => (s, "bad-op")
+
 end Drv
 
 end C01
